@@ -548,3 +548,47 @@ Example chain_example :
               (chain_init 2 [[1; 2]; [3]] [map (fun x => x + 10); (fun p => p)]) = Some c /\
             mainp c = MDone /\ sink_seen c = [[11; 12]; [13]].
 Proof. eexists. split; [vm_compute; reflexivity|]. split; reflexivity. Qed.
+
+(* ------------------------------------------------------------------------------------------- *)
+(* util::stream::Stream delivers exactly the records of the blocks, whatever runs of empty blocks lie between them *)
+Lemma skip_empty_concat : forall bl, concat (skip_empty bl) = concat bl.
+Proof. induction bl as [|[|x r] t IH]; simpl; auto. Qed.
+Lemma skip_empty_head : forall bl, match skip_empty bl with [] :: _ => False | _ => True end.
+Proof. induction bl as [|[|x r] t IH]; simpl; auto. Qed.
+
+Lemma stream_read_at : forall r x rest fuel, length (x :: r ++ concat rest) <= fuel ->
+  stream_read fuel (SAt x r rest) = x :: r ++ concat rest.
+Proof.
+  intros r x rest fuel. remember (length (r ++ concat rest)) as n eqn:Hn. revert r x rest fuel Hn.
+  induction n as [n IH] using lt_wf_ind. intros r x rest fuel Hn Hf.
+  destruct fuel as [|f]; [simpl in Hf; lia|]. simpl. f_equal.
+  destruct r as [|y r'].
+  - simpl. unfold stream_start. pose proof (skip_empty_concat rest) as Hc. pose proof (skip_empty_head rest) as Hh.
+    destruct (skip_empty rest) as [|[|z r2] rest2] eqn:Es.
+    + simpl in Hc. rewrite <- Hc. destruct f; reflexivity.
+    + destruct Hh.
+    + simpl in Hc. rewrite <- Hc. simpl in Hn, Hf. rewrite <- Hc in Hn, Hf. simpl in Hn, Hf.
+      apply (IH (length (r2 ++ concat rest2))); [lia|reflexivity|simpl; lia].
+  - simpl. simpl in Hn, Hf. apply (IH (length (r' ++ concat rest))); [lia|reflexivity|simpl; lia].
+Qed.
+
+Theorem stream_records_concat : forall bl, stream_records bl = concat bl.
+Proof.
+  intros bl. unfold stream_records, stream_start.
+  pose proof (skip_empty_concat bl) as Hc. pose proof (skip_empty_head bl) as Hh.
+  destruct (skip_empty bl) as [|[|x r] rest] eqn:Es.
+  - simpl in Hc. rewrite <- Hc. reflexivity.
+  - destruct Hh.
+  - simpl in Hc. rewrite <- Hc. apply stream_read_at. simpl. lia.
+Qed.
+
+Example stream_example : stream_records [[]; []; [1; 2]; []; []; []; [3]; []; []] = [1; 2; 3].
+Proof. reflexivity. Qed.
+
+Lemma stream_consumer : forall b payloads fs, 1 <= b -> fs <> [] ->
+  forall c, chain_reachable b payloads fs c -> mainp c = MDone -> forall pre s post, segs c = pre ++ s :: post ->
+  stream_records (payloads_of (sseen s)) = concat (payloads_of (stream_into payloads (firstn (length pre) fs))).
+Proof.
+  intros b payloads fs Hb Hfs c Hr Hm pre s post E. rewrite stream_records_concat.
+  destruct (chain_finished b payloads fs Hb Hfs c Hr Hm pre s post E) as [-> _]. reflexivity.
+Qed.
